@@ -146,6 +146,8 @@ def _objects(case):
 def _tol(case, op):
     if op.tol != ops.EXACT and case.get('dmode') == 'f32':
         return 2e-6        # single precision data: NumPy's own result is only that accurate
+    if op.tol == ops.EXACT and str(case.get('dmode', '')).startswith('c') and case['op'].split(':')[0] in ('mul', 'imul', 'outer'):
+        return 1e-14       # complex products: NumPy's array loop and its scalar path differ in the last bit (FMA)
     return op.tol
 
 
